@@ -14,6 +14,7 @@ from __future__ import annotations
 import ast
 
 from ..astutil import AnalysisError, dotted, src, walk_local, walk_ordered, calls_in, fail_closed
+from .. import pattern as P
 from ..rules import optable as ot
 
 VH = "cohdl/_compiler/backend/vhdl/_vhdl_repr.py"
@@ -34,7 +35,7 @@ def rule_interface(run):
     vh = run.idx.mod(VH)
     f = vh.func("Entity._port_declarations")
     loops = [l for l in f.node.body if isinstance(l, ast.For)]
-    ok = bool(loops) and src(loops[0].iter) == "self._ports.items()"
+    ok = bool(loops) and P.T(loops[0].iter) == "self._ports.items()"
     run.ob(ok, "vhdl.Entity._port_declarations", file=vh.rel, line=f.node.lineno, detail="declared-order", expected="for name, port in self._ports.items()", found=src(loops[0].iter) if loops else "missing")
     if not loops:
         raise AnalysisError("port declaration loop not found")
@@ -43,7 +44,7 @@ def rule_interface(run):
     node = chain[0] if chain else None
     last = None
     while isinstance(node, ast.If):
-        t = src(node.test)
+        t = P.T(node.test)
         v = [a.value.value for a in node.body if isinstance(a, ast.Assign) and isinstance(a.value, ast.Constant)]
         table[t] = v[0] if v else None
         last = node
@@ -57,19 +58,19 @@ def rule_interface(run):
     ok = len(app) == 1 and isinstance(app[0].args[0], ast.JoinedStr) and [src(v.value) for v in app[0].args[0].values if isinstance(v, ast.FormattedValue)][:2] == ["name", "dir_str"]
     run.ob(ok, "vhdl.Entity._port_declarations", file=vh.rel, line=f.node.lineno, detail="template", expected="`{name} : {dir_str} <type>;` for every port", found=src(app[0].args[0])[:70] if app else "missing")
     init = vh.func("Entity.__init__")
-    ok = "self._ports = info.ports" in src(init.node)
+    ok = "self._ports = info.ports" in P.T(init.node)
     run.ob(ok, "vhdl.Entity.__init__", file=vh.rel, line=init.node.lineno, detail="declared-ports", expected="self._ports = info.ports", found="ok" if ok else "changed")
     tq = run.idx.mod(TQ)
     for pred, member in (("is_input", "INPUT"), ("is_output", "OUTPUT"), ("is_inout", "INOUT")):
         d = tq.func(f"Port.Direction.{pred}")
-        ok = src(d.node.body[-1]) == f"return self is Port.Direction.{member}"
+        ok = P.T(d.node.body[-1]) == f"return self is Port.Direction.{member}"
         run.ob(ok, f"Port.Direction.{pred}", file=tq.rel, line=d.node.lineno, detail="predicate", expected=f"self is Port.Direction.{member}", found=src(d.node.body[-1]))
         c = [g for g in tq.funcs_named(f"Port.{pred}")]
-        ok = bool(c) and src(c[0].node.body[-1]) == f"return cls._direction is Port.Direction.{member}"
+        ok = bool(c) and P.T(c[0].node.body[-1]) == f"return cls._direction is Port.Direction.{member}"
         run.ob(ok, f"Port.{pred}", file=tq.rel, line=(c[0].node.lineno if c else 0), detail="predicate", expected=f"cls._direction is Port.Direction.{member}", found=src(c[0].node.body[-1]) if c else "missing")
     for fac, member in (("input", "INPUT"), ("output", "OUTPUT"), ("inout", "INOUT")):
         g = tq.func(f"Port.{fac}")
-        ok = f"Port[Wrapped, Port.Direction.{member}]" in src(g.node)
+        ok = f"Port[Wrapped, Port.Direction.{member}]" in P.T(g.node)
         run.ob(ok, f"Port.{fac}", file=tq.rel, line=g.node.lineno, detail="factory", expected=f"Port[Wrapped, Port.Direction.{member}]", found="ok" if ok else "changed")
     run.end()
 
@@ -82,17 +83,17 @@ def rule_port_map(run):
     if not loops:
         raise AnalysisError("port map loop not found")
     l = loops[0]
-    ok = src(l.iter) == "self._entity.ports()"
+    ok = P.T(l.iter) == "self._entity.ports()"
     run.ob(ok, "EntityInst._port_map", file=vh.rel, line=l.lineno, detail="all-formals", expected="for port_name in self._entity.ports()", found=src(l.iter))
     v = l.target.id
     app = [c for c in calls_in(l) if isinstance(c.func, ast.Attribute) and c.func.attr == "append"]
-    ok = len(app) == 1 and isinstance(app[0].args[0], ast.Tuple) and dotted(app[0].args[0].elts[0]) == v and src(app[0].args[0].elts[1]) == f"self._scope.format_target(self._ports[{v}])"
+    ok = len(app) == 1 and isinstance(app[0].args[0], ast.Tuple) and dotted(app[0].args[0].elts[0]) == v and P.T(app[0].args[0].elts[1]) == f"self._scope.format_target(self._ports[{v}])"
     run.ob(ok, "EntityInst._port_map", file=vh.rel, line=l.lineno, detail="same-key", expected=f"({v}, format_target(self._ports[{v}]))", found=src(app[0].args[0])[:80] if app else "missing")
-    tmpl = [j for j in ast.walk(f.node) if isinstance(j, ast.JoinedStr) and "=>" in src(j)]
+    tmpl = [j for j in ast.walk(f.node) if isinstance(j, ast.JoinedStr) and "=>" in P.T(j)]
     ok = len(tmpl) == 1 and [src(x.value) for x in tmpl[0].values if isinstance(x, ast.FormattedValue)][:2] == ["port_name", "local"]
     run.ob(ok, "EntityInst._port_map", file=vh.rel, line=f.node.lineno, detail="template", expected="{port_name} => {local}", found=src(tmpl[0]) if tmpl else "missing")
     comp = [c for c in ast.walk(f.node) if isinstance(c, ast.ListComp) and tmpl and any(x is tmpl[0] for x in ast.walk(c))]
-    ok = bool(comp) and "zip(port_map, line_end)" in src(comp[0].generators[0].iter)
+    ok = bool(comp) and "zip(port_map, line_end)" in P.T(comp[0].generators[0].iter)
     run.ob(ok, "EntityInst._port_map", file=vh.rel, line=f.node.lineno, detail="all-associations", expected="every collected pair is emitted", found="ok" if ok else "changed")
     a = run.idx.mod(ASM)
     ap = a.func("VhdlAssembler.apply")
@@ -116,39 +117,39 @@ def rule_templates(run):
     )
     prep = run.idx.mod(PREP)
     ap = prep.func("ConvertPythonInstance.apply")
-    br = [s for s in ap.node.body if isinstance(s, ast.If) and src(s.test) == "isinstance(inp, type)"]
+    br = [s for s in ap.node.body if isinstance(s, ast.If) and P.T(s.test) == "isinstance(inp, type)"]
     if not br:
         raise AnalysisError("template branch of ConvertPythonInstance.apply not found")
     b = br[0]
-    guard = [s for s in b.body if isinstance(s, ast.If) and src(s.test) == "inp._cohdl_info.instantiated_template is None"]
+    guard = [s for s in b.body if isinstance(s, ast.If) and P.T(s.test) == "inp._cohdl_info.instantiated_template is None"]
     run.ob(bool(guard), "ConvertPythonInstance.apply[type]", file=prep.rel, line=b.lineno, detail="lookup-before-create", expected="if inp._cohdl_info.instantiated_template is None:", found="ok" if guard else "missing")
     ret = b.body[-1]
-    ok = isinstance(ret, ast.Return) and src(ret.value) == "inp._cohdl_info.instantiated_template"
+    ok = isinstance(ret, ast.Return) and P.T(ret.value) == "inp._cohdl_info.instantiated_template"
     run.ob(ok, "ConvertPythonInstance.apply[type]", file=prep.rel, line=b.lineno, detail="returns-cached", expected="return inp._cohdl_info.instantiated_template", found=src(ret)[:70])
     if guard:
-        stores = [a for a in ast.walk(guard[0]) if isinstance(a, ast.Assign) and src(a.targets[0]) == "inp._cohdl_info.instantiated_template"]
-        ok = len(stores) == 2 and all("out.EntityTemplate(" in src(a.value) and "inp._cohdl_info.copy()" in src(a.value) for a in stores)
+        stores = [a for a in ast.walk(guard[0]) if isinstance(a, ast.Assign) and P.T(a.targets[0]) == "inp._cohdl_info.instantiated_template"]
+        ok = len(stores) == 2 and all("out.EntityTemplate(" in P.T(a.value) and "inp._cohdl_info.copy()" in P.T(a.value) for a in stores)
         run.ob(ok, "ConvertPythonInstance.apply[type]", file=prep.rel, line=guard[0].lineno, detail="stored", expected="template built from a copy of the info and stored on the class's info", found=f"{len(stores)} stores")
     gen = run.idx.mod(GEN)
     lk = gen.func("ConvertInstance.lookup_template")
-    ok = "if source in self._entity_templates:\n    return self._entity_templates[source]" in src(lk.node).replace("        ", "    ") or ("source in self._entity_templates" in src(lk.node) and "return self._entity_templates[source]" in src(lk.node))
+    ok = "if source in self._entity_templates:\n    return self._entity_templates[source]" in P.T(lk.node).replace("        ", "    ") or ("source in self._entity_templates" in P.T(lk.node) and "return self._entity_templates[source]" in P.T(lk.node))
     run.ob(ok, "ConvertInstance.lookup_template", file=gen.rel, line=lk.node.lineno, detail="lookup", expected="keyed by the source template (identity map)", found="ok" if ok else "changed")
     ca = gen.func("ConvertInstance.apply")
     br = ot.find_branch(ca.node, ot.isinstance_test("inp", "out.EntityTemplate"))
-    t = src(br) if br is not None else ""
+    t = P.T(br) if br is not None else ""
     ok = "ir_template = self.lookup_template(inp)" in t and "if ir_template is None:" in t and "self.add_template(inp, ir_template)" in t and t.strip().endswith("return ir_template")
     run.ob(ok, "ConvertInstance.apply[out.EntityTemplate]", file=gen.rel, line=(br.lineno if br else 0), detail="get-or-create", expected="lookup, create only if missing, add under the same key, return", found="ok" if ok else "changed")
     a = run.idx.mod(ASM)
     ap2 = a.func("VhdlAssembler.apply")
     br = ot.find_branch(ap2.node, ot.isinstance_test("inp", "ir.EntityTemplate"))
-    t = src(br) if br is not None else ""
+    t = P.T(br) if br is not None else ""
     first = br.body[0] if br is not None else None
-    ok = isinstance(first, ast.If) and src(first.test) == "inp in self._get_known_templates()" and "return self._get_known_templates()[inp]" in src(first)
+    ok = isinstance(first, ast.If) and P.T(first.test) == "inp in self._get_known_templates()" and "return self._get_known_templates()[inp]" in P.T(first)
     run.ob(ok, "VhdlAssembler.apply[ir.EntityTemplate]", file=a.rel, line=(br.lineno if br else 0), detail="lookup-first", expected="known template returned before anything is created", found="ok" if ok else "changed")
     ok = "self._add_template(inp, ret)" in t and t.strip().endswith("return ret")
     run.ob(ok, "VhdlAssembler.apply[ir.EntityTemplate]", file=a.rel, line=(br.lineno if br else 0), detail="stored", expected="self._add_template(inp, ret); return ret", found="ok" if ok else "changed")
     at = a.func("VhdlAssembler._add_template")
-    ok = "self._known_templates[inp] = ret" in src(at.node)
+    ok = "self._known_templates[inp] = ret" in P.T(at.node)
     run.ob(ok, "VhdlAssembler._add_template", file=a.rel, line=at.node.lineno, detail="same-key", expected="self._known_templates[inp] = ret", found="ok" if ok else "changed")
     # a fresh ModuleScope per template
     ok = "module_scope = vhdl.ModuleScope(" in t and "module_scope.complete_setup()" in t
@@ -166,13 +167,13 @@ def rule_library_order(run):
     ok = len(loops) == 1 and len(adds) == 1 and c.node.body.index(loops[0]) < c.node.body.index(adds[0]) and dotted(adds[0].value.args[0]) == c.node.args.args[0].arg
     run.ob(ok, "Library.from_top_entity.collect_subenties", file=vh.rel, line=c.node.lineno, detail="post-order", expected="recurse into all sub-entities, then entities.add(parent_entity)", found="ok" if ok else "order changed")
     rec = [x for x in ast.walk(loops[0]) if isinstance(x, ast.Call) and dotted(x.func) == c.node.name] if loops else []
-    ok = len(rec) == 1 and "sub_entities()" in src(loops[0].iter)
+    ok = len(rec) == 1 and "sub_entities()" in P.T(loops[0].iter)
     run.ob(ok, "Library.from_top_entity.collect_subenties", file=vh.rel, line=c.node.lineno, detail="recursion", expected="collect_subenties(entity) for every sub-entity instance", found="ok" if ok else "changed")
-    t = src(f.node)
+    t = P.T(f.node)
     ok = "entities = IdSet()" in t and "[*entities]" in t and not any(isinstance(x, ast.Call) and dotted(x.func) in ("reversed", "sorted") for x in ast.walk(f.node)) and "[::-1]" not in t
     run.ob(ok, "Library.from_top_entity", file=vh.rel, line=f.node.lineno, detail="ordered-container", expected="IdSet (insertion ordered, one entry per entity), emitted in collection order", found="ok" if ok else "changed")
     w = vh.func("Library.write")
-    ok = "for entity in self._entities" in src(w.node)
+    ok = "for entity in self._entities" in P.T(w.node)
     run.ob(ok, "Library.write", file=vh.rel, line=w.node.lineno, detail="emission-order", expected="entities written in list order", found="ok" if ok else "changed")
     run.end()
 
